@@ -240,8 +240,12 @@ def main(argv=None) -> int:
 
     wall = time.time() - t_start
     # ---- 5. evidence
-    paths = sum(int(r.get("paths") or 0) for r in results)
-    confirmed_paths = sum(int(r.get("confirmed_paths") or 0) for r in results)
+    # symbolic paths / SMT queries are counted apart from the cases of supplementary finite enumerations (kind "concrete")
+    sym = [(o, r) for o, r in zip(obls, results) if o.get("kind") != "concrete"]
+    conc = [(o, r) for o, r in zip(obls, results) if o.get("kind") == "concrete"]
+    paths = sum(int(r.get("paths") or 0) for _o, r in sym)
+    confirmed_paths = sum(int(r.get("confirmed_paths") or 0) for _o, r in sym)
+    enumerated_cases = sum(int(r.get("paths") or 0) for _o, r in conc)
     solver_checks = sum(int(r.get("solver_checks") or 0) for r in results)
     solver_s = sum(float(r.get("solver_s") or 0) for r in results)
     samples: List[Any] = []
@@ -267,7 +271,9 @@ def main(argv=None) -> int:
             "transitions": max(solver_checks, 1),
             "traces_validated_against_impl": replays_run + n_validated,
             "evaluations": max(paths, 1),
-            "distinct_nontrivial": max(confirmed_paths + sum(1 for r in results if r.get("status") == "confirmed" and not r.get("confirmed_paths")), 0),
+            "distinct_nontrivial": max(confirmed_paths + sum(1 for _o, r in sym if r.get("status") == "confirmed" and not r.get("confirmed_paths")), 0),
+            "supplementary_enumeration_cases": enumerated_cases,
+            "supplementary_enumeration_note": "cases of finite concrete enumerations (kind 'concrete' obligations: derivation sweep, look-alike siblings, real-file option sweep, '.' semantics on the real engine); NOT counted in states/evaluations/distinct_nontrivial, which are symbolic paths and SMT queries only",
             "rule": "one evaluation = one symbolic execution path of the real code (a path condition = an equivalence class of inputs decided by z3) or one direct SMT query; "
             "distinct_nontrivial counts paths that passed every precondition and on which the postcondition was decided by the solver (distinct by construction: path conditions are mutually exclusive), plus decided SMT obligations",
             "samples": samples,
